@@ -14,7 +14,7 @@ namespace
         static void w(void *p, const char *d, unsigned n) { ((TermC *)p)->sink->on_write(d, n); }
         static void e(void *p, const char *d, unsigned n) { ((TermC *)p)->sink->on_execute(d, n); }
         static void s(void *p, int sig) { ((TermC *)p)->sink->on_signal(sig); }
-        void start(unsigned cap, unsigned h, TermSink *sk) override
+        void start(unsigned cap, unsigned h, TermSink *sk, const char *prompt, bool echo) override
         {
             sink = sk;
             line.reset(new char[cap]);
@@ -23,6 +23,8 @@ namespace
             vterm_set_write_callback(&vt, w, this);
             vterm_set_execute_callback(&vt, e, this);
             vterm_set_signal_callback(&vt, s, this);
+            vt.prefix_string = prompt;
+            vt.echo = echo ? 1 : 0;
             vterm_automate_init_step(&vt);
         }
         void feed(int c) override { vterm_automate_newdata(&vt, (int16_t)c); }
